@@ -205,8 +205,33 @@ class SC:
     the value is exactly lin[0] + i*lin[1] as an affine form of the declared parameters."""
 
     __slots__ = ("re", "im", "lin", "inv")
-    __array_ufunc__ = None
     __array_priority__ = 1000
+
+    def __array_ufunc__(self, ufunc, method, *inputs, out=None, **kwargs):
+        """numpy ufuncs with an SC operand run their object loops (which call the Python operators /
+        methods of the elements); also makes in-place array operations such as `arr /= sc` work."""
+        if method != "__call__":
+            return NotImplemented
+        conv = []
+        for x in inputs:
+            if isinstance(x, SC):
+                a = numpy.empty((), dtype=object)
+                a[()] = x
+                conv.append(a)
+            elif isinstance(x, numpy.ndarray) and x.dtype != object:
+                conv.append(x.astype(object))
+            else:
+                conv.append(x)
+        res = ufunc(*conv, **kwargs)
+        if out is not None:
+            tgt = out[0]
+            tgt[...] = res
+            return tgt
+        if isinstance(res, numpy.ndarray):
+            if res.shape == ():
+                return res[()]
+            return res.view(XArr) if res.dtype == object else res
+        return res
 
     def __init__(self, re, im=ZERO, lin=None, inv=None):
         self.re = re
@@ -840,6 +865,14 @@ class XNP:
     sinh = _unary("sinh")
     tanh = _unary("tanh")
     log = _unary("log")
+
+    def isscalar(self, x):
+        return isinstance(x, SC) or numpy.isscalar(x)
+
+    def real_if_close(self, x, *a, **k):
+        if _isobj(x):
+            return x
+        return numpy.real_if_close(x, *a, **k)
 
     def conj(self, x):
         if isinstance(x, SC):
